@@ -614,6 +614,33 @@ fn evaluate(is_base: bool, oversize: bool, verdict: &Verdict, outcome: &Outcome)
   }
 }
 
+/// Documents whose *stored form* exceeds the 32 MiB docstore cap, through different places of the
+/// document: (name, schema, document). All oversized values are stored-only (not tokenized /
+/// indexed), which keeps the cases cheap.
+fn oversize_variants(bytes: usize) -> Vec<(&'static str, Value, Value)> {
+  let blob = |n: usize| "a".repeat(n);
+  let nested_schema = json!({"doc_id_field": "_id",
+    "text_fields": [{"name": "title", "analyzer": "default", "stored": true, "indexed": true}],
+    "keyword_fields": [], "numeric_fields": [],
+    "nested_fields": [{"name": "att", "nullable": true, "fields": [
+      {"type": "keyword", "name": "data", "stored": true, "indexed": false, "fast": false, "nullable": true},
+      {"type": "keyword", "name": "kind", "stored": true, "indexed": true, "fast": true, "nullable": true}]}]});
+  let two_fields = json!({"doc_id_field": "_id",
+    "text_fields": [{"name": "blob", "analyzer": "default", "stored": true, "indexed": false},
+                    {"name": "blob2", "analyzer": "default", "stored": true, "indexed": false}],
+    "keyword_fields": [{"name": "kblob", "stored": true, "indexed": false, "fast": false}], "numeric_fields": []});
+  let half = bytes / 2 + (1 << 20);
+  vec![
+    ("one stored top-level text value", schema_blob(), json!({"_id": "A", "blob": blob(bytes)})),
+    ("one stored top-level keyword value", two_fields.clone(), json!({"_id": "A", "blob": "x", "kblob": blob(bytes)})),
+    ("two stored top-level values that exceed the cap together", two_fields, json!({"_id": "A", "blob": blob(half), "blob2": blob(half)})),
+    ("one stored property of a nested object", nested_schema.clone(), json!({"_id": "A", "title": "t", "att": {"kind": "k", "data": blob(bytes)}})),
+    ("stored properties of two nested objects that exceed the cap together", nested_schema, json!({"_id": "A", "title": "t", "att": [{"kind": "k", "data": blob(half)}, {"data": blob(half)}]})),
+    // 6 MiB of control characters: each is serialized as a 6-byte \\u escape (36 MiB stored form)
+    ("a value whose JSON escaping exceeds the cap", schema_blob(), json!({"_id": "A", "blob": "\u{1}".repeat(6 << 20)})),
+  ]
+}
+
 fn oversize_doc(bytes: usize) -> Value {
   json!({"_id": "A", "blob": "a".repeat(bytes)})
 }
@@ -643,9 +670,13 @@ pub fn run(ctx: &Ctx) -> i32 {
     let cs = &v["case"];
     let schema_json = cs["schema_json"].clone();
     let oversize = cs["oversize_bytes"].as_u64();
-    let d = match oversize {
-      Some(n) => oversize_doc(n as usize),
-      None => cs["doc"].clone(),
+    let (schema_json, d) = match (oversize, cs["oversize_variant"].as_u64()) {
+      (Some(n), Some(v)) => {
+        let (_, sj, d) = oversize_variants(n as usize).swap_remove(v as usize);
+        (sj, d)
+      }
+      (Some(n), None) => (schema_json, oversize_doc(n as usize)),
+      _ => (schema_json, cs["doc"].clone()),
     };
     let is_base = cs["mutations"].as_array().map(|a| a.is_empty()).unwrap_or(false) && oversize.is_none();
     let verdict = judge(&schema_json, &d);
@@ -777,20 +808,24 @@ pub fn run(ctx: &Ctx) -> i32 {
   let t_enum = rep.elapsed_s();
   // one oversized stored value (> 32 MiB docstore cap), flat schema
   let oversize_bytes = 33usize << 20;
+  let mut oversize_cases = 0usize; // reported in the evidence
   if !quick {
-    let sjson = schema_blob();
-    let d = oversize_doc(oversize_bytes);
-    let verdict = judge(&sjson, &d);
-    let outcome = run_doc(&sjson, &d);
-    evals.fetch_add(1, Ordering::Relaxed);
-    *outcomes.lock().entry(outcome_class(&outcome).to_string()).or_insert(0) += 1;
-    if let Some((sig, what)) = evaluate(false, true, &verdict, &outcome) {
-      *failure_classes.entry(sig.map(|s| s.to_string()).unwrap_or_else(|| "unexplained: oversized stored value".into())).or_insert(0) += 1;
-      rep.fail(
-        sig,
-        &format!("schema with one stored, unindexed text field blob; doc {{\"_id\":\"A\",\"blob\":\"a\" x {oversize_bytes}}}: {what}"),
-        json!({"engine": "inputmc-docs", "schema_name": "blob", "schema_json": sjson, "oversize_bytes": oversize_bytes, "mutations": []}),
-      );
+    let n_variants = oversize_variants(16).len();
+    for vi in 0..n_variants {
+      let (name, sjson, d) = oversize_variants(oversize_bytes).swap_remove(vi);
+      let verdict = judge(&sjson, &d);
+      let outcome = run_doc(&sjson, &d);
+      evals.fetch_add(1, Ordering::Relaxed);
+      oversize_cases += 1;
+      *outcomes.lock().entry(outcome_class(&outcome).to_string()).or_insert(0) += 1;
+      if let Some((sig, what)) = evaluate(false, true, &verdict, &outcome) {
+        *failure_classes.entry(sig.map(|s| s.to_string()).unwrap_or_else(|| "unexplained: oversized stored value".into())).or_insert(0) += 1;
+        rep.fail(
+          sig,
+          &format!("document whose stored form exceeds the 32 MiB docstore cap through {name} ({} MiB): {what}", oversize_bytes >> 20),
+          json!({"engine": "inputmc-docs", "schema_name": name, "schema_json": sjson, "oversize_bytes": oversize_bytes, "oversize_variant": vi, "mutations": []}),
+        );
+      }
     }
   }
   rep.add_evals(evals.load(Ordering::Relaxed));
@@ -802,7 +837,8 @@ pub fn run(ctx: &Ctx) -> i32 {
   let rs: BTreeMap<String, Value> = reason_stats.lock().iter().map(|(k, (n, r))| (k.clone(), json!({"cases": n, "rejected_at_add": r}))).collect();
   let cov = vcore::cov! {
     "distinct_nontrivial" => invalid_cases.load(Ordering::Relaxed),
-    "rule" => "cases = per schema, every base document + every distinct result of one mutation operator + every distinct result of two (quick: second-order mutants of the two simplest base documents per schema only, and none on top of a schema-derived key); plus, as first-order operators, every top-level key derived from the schema's field paths (nested leaf paths, nested object paths, those and every field / nested field / id name extended by a segment, leaf paths extended by two) with a value of each of 9 JSON shapes (judged only by add Ok => commit Ok, later commits not blocked); shape operators: drop/blank/whitespace/non-string id, add unknown top-level field, for every value location replace by each of 11 typed values (null, bool, int, float, string, mixed array, float array, array of arrays, [[]], object, {}), wrap in an array, drop each property, add unknown property, append string/int/float/null/[]/{}/[first] to each array; plus (thorough only: it costs ~20 s) one document with a 33 MiB stored value. A case is non-trivial when the independent predicate finds at least one schema violation in it.",
+    "oversized_stored_form_cases" => oversize_cases,
+    "rule" => "cases = per schema, every base document + every distinct result of one mutation operator + every distinct result of two (quick: second-order mutants of the two simplest base documents per schema only, and none on top of a schema-derived key); plus, as first-order operators, every top-level key derived from the schema's field paths (nested leaf paths, nested object paths, those and every field / nested field / id name extended by a segment, leaf paths extended by two) with a value of each of 9 JSON shapes (judged only by add Ok => commit Ok, later commits not blocked); shape operators: drop/blank/whitespace/non-string id, add unknown top-level field, for every value location replace by each of 11 typed values (null, bool, int, float, string, mixed array, float array, array of arrays, [[]], object, {}), wrap in an array, drop each property, add unknown property, append string/int/float/null/[]/{}/[first] to each array; plus (thorough only: memory and time) six documents whose stored form exceeds the 32 MiB docstore cap: through one top-level text / keyword value, two top-level values together, one property of a nested object, properties of two nested objects together, and a value whose JSON escaping exceeds the cap. A case is non-trivial when the independent predicate finds at least one schema violation in it.",
     "schemas" => universes().iter().map(|u| u.0).collect::<Vec<_>>(),
     "base_documents" => per_depth[0],
     "single_mutants" => per_depth[1],
